@@ -126,6 +126,20 @@ def option_builtin(prog, name, args, call, depth, inline=False):
     return None
 
 
+def _store(base, proj, v):
+    """functional update: the value `base` with the sub-place `proj` replaced by v (field projections only)"""
+    if not proj:
+        return v
+    pr = proj[0]
+    if pr == "*":
+        raise Unrecognised("store through a reference")
+    if isinstance(pr, dict) and "f" in pr and isinstance(base, tuple) and base and base[0] in ("variant", "tuple"):
+        items = list(base[2] if base[0] == "variant" else base[1])
+        items[pr["f"]] = _store(items[pr["f"]], proj[1:], v)
+        return (base[:2] + (items,) + base[3:]) if base[0] == "variant" else ("tuple", items)
+    raise Unrecognised("store through projection %r of %r" % (pr, base))
+
+
 def run(body, start_bb, env, call=None, max_steps=400, prog=None, depth=0, inline=False):
     """Interpret `body` from block start_bb with initial local environment env {local: value}.
     Values: int/bool, Sym, ('tuple', [...]), ('variant', name, [...]), ('closure', path, upvars).
@@ -196,8 +210,6 @@ def run(body, start_bb, env, call=None, max_steps=400, prog=None, depth=0, inlin
             if s["k"] != "assign":
                 raise Unrecognised("statement %s" % s["k"])
             lhs = s["lhs"]
-            if lhs["p"]:
-                raise Unrecognised("store through a projection")
             rv = s["rv"]
             k = rv["k"]
             if k == "use":
@@ -245,11 +257,14 @@ def run(body, start_bb, env, call=None, max_steps=400, prog=None, depth=0, inlin
             elif k == "agg" and rv["agg"] == "tuple":
                 v = ("tuple", [operand(o) for o in rv["ops"]])
             elif k == "agg" and rv["agg"] == "adt":
-                v = ("variant", rv["vname"], [operand(o) for o in rv["ops"]], rv["variant"], tuple(rv["fields"]))
+                v = ("variant", rv["vname"], [operand(o) for o in rv["ops"]], rv["variant"], tuple(rv["fields"]), rv.get("adt"))
             elif k == "agg" and rv["agg"] == "closure":
                 v = ("closure", rv["closure"], [operand(o) for o in rv["ops"]]) if prog is not None else Sym("closure:" + rv["closure"])
             else:
                 raise Unrecognised("rvalue %s" % k)
+            if lhs["p"]:
+                env[lhs["l"]] = _store(env.get(lhs["l"]), lhs["p"], v)
+                continue
             env[lhs["l"]] = v
         t = bl["term"]
         k = t["k"]
